@@ -275,6 +275,9 @@ func (e *Engine) solveOne(o *Obl, header string, dir string, quickT, raceT int) 
 	if strings.Contains(o.Goal.S, "(mod ") {
 		hasFP = true // remainder arithmetic: z3 5.x is often slow where z3 4.8 / cvc5 are instant -- race at once
 	}
+	if o.batchMiss {
+		hasFP = true // z3-new has had its turn in the batch pass: go straight to the race (z3 4.8 / cvc5 often answer at once)
+	}
 	if !hasFP {
 		r := runSolver(context.Background(), solverZ3New, z3file, quickT)
 		total += r.secs
@@ -530,7 +533,12 @@ func (e *Engine) batchFunction(fe *FuncEnc, obls []*Obl, header string, dir stri
 		k++
 		if ln == "unsat" || ln == "sat" {
 			o.Status, o.Solver, o.Time = ln, "z3-new(batch)", secs/float64(len(order))
+		} else {
+			o.batchMiss = true // z3-new has had its turn: the individual pass goes straight to the race
 		}
+	}
+	for _, o := range order[k:] {
+		o.batchMiss = true // the batch ran out of its budget before reaching these: the race includes z3-new anyway
 	}
 }
 
